@@ -34,6 +34,8 @@ Checks(ev) ==
   CASE o = "rt.sequential" ->
          << <<"lib-state-constant", ev.out.lib_changed = <<>> /\ ev.out.lib_changed_by_fixture = <<>>>>,
             <<"dispatch-written-once", ev.out.dispatch_before = ev.out.dispatch_after /\ ev.out.dispatch_after.table = ev.out.dispatch_after.cpu>>,
+            \* the calls' input objects (const parameters), private or shared between threads, are not written
+            <<"inputs-constant", ev.out.inputs_changed = 0 /\ ev.out.shared_inputs_changed = 0>>,
             <<"pre.image-found", ev.out.ranges > 0>> >>
     [] o \in {"rt.schedule", "rt.free"} ->
          << <<"pre.schedule-followed", o = "rt.free" \/ (ev.out.desync = 0 /\ ev.out.consumed = Len(ev.schedule))>>,
@@ -41,6 +43,7 @@ Checks(ev) ==
             <<"results-sequential", ev.out.results = ev.expect>>,
             <<"segments", ev.out.segs = ev.expect_segs>>,
             <<"lib-state-constant", ev.out.lib_changed = <<>> /\ ev.out.lib_changed_by_fixture = <<>>>>,
+            <<"inputs-constant", ev.out.inputs_changed = 0 /\ ev.out.shared_inputs_changed = 0>>,
             <<"dispatch-written-once", ev.out.dispatch_before = ev.out.dispatch_after /\ ev.out.dispatch_after.table = ev.out.dispatch_after.cpu>> >>
     [] o = "rt.symbols" ->
          << <<"extern-allowed", \A i \in 1..Len(ev.undefined) : RT!IsAllowedExtern(ev.undefined[i])>>,
